@@ -212,6 +212,9 @@ def parse_operand(o):
         m = re.match(r'^(.*)::promoted\[(\d+)\]$', body)
         if m:
             return ('const', ('promoted', body))
+        m = re.match(r'^\{(alloc\d+)(?:\+0x[0-9a-f]+)?: (.*)\}$', body)
+        if m:
+            return ('const', ('alloc', m.group(1), m.group(2)))   # address of a static
         m = re.match(r'^(-?[\d.]+(?:e-?\d+)?)(f32|f64)$', body)
         if m:
             return ('const', ('float', body))
@@ -439,6 +442,7 @@ class Func:
         return '<Func %s>' % self.name
 
 
+_ALLOC = re.compile(r'^(alloc\d+) \(static: ([^,)]+)')
 _HDR_FN = re.compile(r'^fn (.*?)\((.*)\) -> (.*) \{$')
 _HDR_CONST = re.compile(r'^(?:const|static|static mut) (.*?): (.*) = \{$')
 _HDR_PROMOTED = re.compile(r'^const (.*::promoted\[\d+\]): (.*) = \{$')
@@ -456,6 +460,12 @@ def parse_mir(text):
     while i < n:
         line = lines[i]
         if cur is None:
+            if line.startswith('alloc'):
+                # `alloc1 (static: WALK_DEPTH, size: 8, align: 8) {`: which static an `{alloc1: &T}` operand refers to
+                m = _ALLOC.match(line)
+                if m:
+                    tab = funcs.setdefault('__allocs__', [Func('__allocs__', [], '()', 'allocs')])[0]
+                    tab.locals[m.group(1)] = m.group(2).strip()
             if line.startswith('fn '):
                 m = _HDR_FN.match(line)
                 if m:
@@ -470,7 +480,7 @@ def parse_mir(text):
             elif line.startswith(('const ', 'static ')):
                 m = _HDR_PROMOTED.match(line) or _HDR_CONST.match(line)
                 if m:
-                    cur = Func(m.group(1).strip(), [], m.group(2).strip(), 'const')
+                    cur = Func(m.group(1).strip(), [], m.group(2).strip(), 'static' if line.startswith('static ') else 'const')
                 else:
                     m = _HDR_CONST_INLINE.match(line)
                     if m:
